@@ -41,36 +41,52 @@ def sweep(ctx: fw.Ctx, pid: str):
         ctx.case({"text": text, **{k: info[k] for k in ("template", "gap", "variant")}}, nontrivial)
         ctx.count("variant:" + info["variant"])
         for cl, det in failures_of(res, clauses):
-            key = {"clause": cl, "detail": det, "parent": info["parent"], "before": info["before"], "after": info["after"]}
+            key = {"clause": cl, "detail": det, "parent": info["parent"], "before": info["before"], "after": info["after"],
+                   "leading_ws": text[:1].isspace()}
             ctx.fail(key, {"text": text, **info, "output": res["output"]},
                      f"{cl} {det}: {text!r} -> {res['output']!r}" if res["output"] is not None
                      else f"{cl} {det}: {text!r}: {res['fails'].get('raises')}")
     if not ctx.quick:
-        random_part(ctx, pid, 4000, 3)
+        attributed_part(ctx, pid, prog.enumerate_adjacent_pairs())
     return n
 
 
 def random_part(ctx: fw.Ctx, pid: str, n: int, depth: int):
+    attributed_part(ctx, pid, prog.random_injections(ctx.rng, n, depth))
+
+
+def attributed_part(ctx: fw.Ctx, pid: str, stream):
+    """Programs with several injections. A failure is attributed to the injection that alone
+    reproduces it on the same base program (and classified by that gap's context); a base program
+    that fails without any injection is classified as such; what only several injections together
+    produce is an interaction."""
     clauses = CLAUSES[pid]
-    for info, text in prog.random_injections(ctx.rng, n, depth):
+    for info, base, text in stream:
+        fb = failures_of(layout.evaluate(base), clauses)
+        if fb:
+            for cl, det in fb:
+                ctx.fail({"clause": cl, "detail": det, "parent": "<base>", "before": "", "after": "", "leading_ws": False},
+                         {"text": base}, f"{cl} {det} without any injected trivia: {base!r}")
+            continue
         res = layout.evaluate(text)
         ctx.case({"text": text, "template": "random"}, True)
         fs = failures_of(res, clauses)
-        if not fs:
-            continue
-        # classify by the injection responsible: try each one alone
         for cl, det in fs:
             culprit = None
             for inj in info["injections"]:
-                culprit = culprit or inj
-            inj = info["injections"][0] if len(info["injections"]) == 1 else None
-            key = {"clause": cl, "detail": det,
-                   "parent": inj["parent"] if inj else "<several>", "before": inj["before"] if inj else "<several>",
-                   "after": inj["after"] if inj else "<several>"}
-            if inj is None:
-                # several injections: the failure is known if every injection's context is a known failing one
-                key["contexts"] = sorted({(i["parent"], i["before"], i["after"]) for i in info["injections"]})
-            ctx.fail(key, {"text": text, **info, "output": res["output"]}, f"{cl} {det}: {text!r} -> {res['output']!r}")
+                single = prog.inject(base, inj["gap"], inj["trivia"])
+                if (cl, det) in failures_of(layout.evaluate(single), clauses):
+                    culprit = inj
+                    break
+            if culprit is not None:
+                key = {"clause": cl, "detail": det, "parent": culprit["parent"], "before": culprit["before"],
+                       "after": culprit["after"], "leading_ws": text[:1].isspace()}
+            else:
+                key = {"clause": cl, "detail": det, "parent": "<interaction>", "before": "", "after": "",
+                       "leading_ws": text[:1].isspace(),
+                       "contexts": sorted({i["parent"] for i in info["injections"]})}
+            ctx.fail(key, {"text": text, "base": base, **info, "output": res["output"]},
+                     f"{cl} {det}: {text!r} -> {res['output']!r}")
 
 
 def common(ctx: fw.Ctx, pid: str):
